@@ -323,6 +323,21 @@ theorem C04_formula_mutation (k : Kind) (a b : Term) :
 theorem C04_defined_mutation (k : Kind) (a b : Term) : ∃ v : ℝ, mutation k a b = some v :=
   ⟨_, C04_formula_mutation k a b⟩
 
+/-- … where the two counts are the cardinalities of the intersection and of the union of the two
+annotation sets -/
+theorem C04_mutation_counts (x y : List ℕ) (hx : Sorted x) (hy : Sorted y) :
+    (bitand x y).length = (x.toFinset ∩ y.toFinset).card ∧
+    (bitor x y).length = (x.toFinset ∪ y.toFinset).card := by
+  constructor
+  · rw [← List.toFinset_card_of_nodup (sorted_bitand x y hx hy).nodup]
+    congr 1
+    ext c
+    simp [mem_bitand]
+  · rw [← List.toFinset_card_of_nodup (sorted_bitor x y hx hy).nodup]
+    congr 1
+    ext c
+    simp [mem_bitor]
+
 theorem C04_nonneg_mutation (k : Kind) (a b : Term) (v : ℝ) (h : mutation k a b = some v) :
     0 ≤ v := by
   rw [C04_formula_mutation] at h
